@@ -1364,6 +1364,12 @@ vbi_proxy_client_update_services( vbi_capture * vc,
          {
             *pp_errorstr = strdup((char *) vpc->p_client_msg->body.service_rej.errorstr);
          }
+
+         /* the daemon no longer captures the rejected services for this client */
+         if (reset)
+            vpc->services = 0;
+         else
+            vpc->services &= ~ services;
       }
       vpc->state = CLNT_STATE_CAPTURING;
 
